@@ -168,6 +168,22 @@ def worker_loop(
                 except Exception as e:
                     # Log any error during processing without crashing the loop
                     worker_logger.exception(f"Worker failed job {job_id}: {e}")
+                    # Report the failure on the status channel so the master can
+                    # fail the job's Future instead of leaving the caller waiting.
+                    try:
+                        failure_ctx = ContextType()
+                        failure_ctx.set_value("job_id", job_id)
+                        transport.publish(
+                            f"jobs.{job_id}.status",
+                            data=None,
+                            context=failure_ctx,
+                            metadata={"status": "error", "error": e},
+                            require_ack=False,
+                        )
+                    except Exception as publish_exc:
+                        worker_logger.exception(
+                            f"Worker could not report failure of job {job_id}: {publish_exc}"
+                        )
 
             # Close this subscription before the next polling iteration
             sub.close()
